@@ -634,7 +634,7 @@ spec fn ms_clear_post(a: MultiState, b: MultiState) -> bool {
     &&& (a.draw_target.own() is Some ==> b.zombie_lines_count.0 == 0)
 }
 """),
-        Fn("src/multi.rs", "MultiState", "clear", ret="r", sig_rewrites=[K.IO_RESULT],
+        Fn("src/multi.rs", "MultiState", "clear", ret="r", sig_rewrites=[K.IO_RESULT], also=["C03"],   # suspend = clear, closure, redraw: a clear that leaves rows behind costs printed lines
            requires=[("wf", "old(self).wf()"), ("target-wf", "old(self).draw_target.wf()"), ("clock", "time_ok(now)"), ("own-target", "!(old(self).draw_target.kind is Multi)"),
                      ("sizes", "old(self).zombie_lines_count.0 <= 0x0FFF_FFFF && llc_of(old(self).draw_target) <= 0x0FFF_FFFF")],
            ensures=[("wf", "final(self).wf() && final(self).ordering@ == old(self).ordering@ && final(self).members@ == old(self).members@ && final(self).orphan_lines@ == old(self).orphan_lines@ && final(self).alignment == old(self).alignment"),
